@@ -29,6 +29,8 @@ type Obj struct {
 	v    Value
 	typ  types.Type
 	name string
+	externUninit bool
+	written      bool
 }
 
 type PtrVal struct {
@@ -406,6 +408,9 @@ func describeD(v Value, depth int, seen map[*Obj]bool) string {
 	case SliceVal:
 		if x.arr == nil {
 			return "[]nil"
+		}
+		if bl, ok := x.arr.v.(*Blob); ok {
+			return "blob:" + bl.kind
 		}
 		arr := x.arr.v.(ArrayVal)
 		parts := []string{}
